@@ -28,7 +28,7 @@ From RlibV Require Import Common.Iter.
 Import ListNotations.
 Open Scope Z_scope.
 
-Definition byte := Z.
+Notation byte := Z (only parsing).
 Inductive event := Data (l : list byte) | Intr.
 Record reader := mkReader { rpre : list byte; live : list byte; post : list byte; eof : bool }.
 
